@@ -3,6 +3,10 @@ package main
 import (
 	"fmt"
 	"sync"
+	"time"
+
+	"github.com/trustbloc/sidetree-core-go/pkg/dochandler"
+	"github.com/trustbloc/sidetree-core-go/pkg/processor"
 
 	"github.com/trustbloc/sidetree-core-go/pkg/api/protocol"
 	"github.com/trustbloc/sidetree-core-go/pkg/versions/1_0/operationparser"
@@ -193,6 +197,8 @@ func checkC05(c *hx.Ctx) {
 			c.Sample(4, map[string]interface{}{"grid_point": gridPt, "times": times, "validator_args": tv.calls})
 		}
 	})
+	c05InterimCopies(c)
+	c.Floor("interim_copies_resolved_in_window", 10)
 	c05TwoVersions(c)
 	c.Floor("two_version_points_where_versions_disagree", 20)
 	c.Floor("out_of_window_with_interim_copy", 100)
@@ -273,4 +279,84 @@ func c05TwoVersions(c *hx.Ctx) {
 			}
 		}
 	})
+}
+
+// c05InterimCopies: with an unpublished-operation store, an operation accepted inside its window takes effect at once
+// through its interim copy (stamped by the handler with the intake time). The window is chosen around the wall clock with a
+// margin of more than a day on both sides, so that the clock only has to be roughly right; the oracle itself compares
+// with the reference model on the recorded interim copy.
+func c05InterimCopies(c *hx.Ctx) {
+	rng := c.Rng("interim")
+	now := time.Now().Unix()
+	for k := 0; k < c.N(12, 60); k++ {
+		r := rng.Split(fmt.Sprint(k))
+		p := hx.BaseProtocol()
+		p.MaxOperationTimeDelta = 400000
+		v := hx.NewVersion(p, hx.VersionOpts{})
+		pc := hx.NewClient(v)
+		d, cr, err := NewCDid(r.Split("did"), ref.SHA256, []string{hx.Pick(r, []string{"P-256", "Ed25519"})}, int64(p.MaxOperationTimeDelta), false,
+			[]interface{}{patchAddKeys(genKeyEntry(r, "k1"))}, nil, "o", "")
+		if err != nil {
+			panic(err)
+		}
+		d.Suffix = suffixOf(cr.Req, ref.SHA256)
+		store := hx.NewOpStore()
+		H := []*ref.Op{Place(cr.Desc, 10, 0, "ref0", 0)}
+		store.Set(d.Suffix, ToAnchored(d.Suffix, H))
+		unpub := &recUnpub{}
+		proc := processor.New("verif", store, pc, processor.WithUnpublishedOperationStore(unpub))
+		dh := dochandler.New(hx.Namespace, nil, pc, &hx.RecWriter{}, proc, hx.NopMetrics{}, dochandler.WithUnpublishedOperationStore(unpub, allOpTypes))
+		var from, until int64
+		switch k % 3 {
+		case 0:
+			from, until = now-100000, now+200000
+		case 1:
+			from = now - 100000 // until defaults to from + 400000
+		default:
+			until = now + 200000
+		}
+		var b *BuiltOp
+		kind := []string{"update", "recover", "deactivate"}[(k/3)%3]
+		switch kind {
+		case "update":
+			b, err = d.Update([]interface{}{patchAddServices(svcEntry("interim", "t", "https://interim.example"))}, from, until)
+		case "recover":
+			b, err = d.Recover([]interface{}{patchAddServices(svcEntry("recovered", "t", "https://recovered.example"))}, nil, "o2", from, until)
+		default:
+			b, err = d.Deactivate(from, until)
+		}
+		if err != nil {
+			panic(err)
+		}
+		c.Eval()
+		if _, err := dh.ProcessOperation(b.Req, p.GenesisTime); err != nil {
+			c.Violation(fmt.Sprintf("C05 a %s inside its window [%d,%d] (wall clock %d) was refused at intake: %v", kind, from, until, now, err), map[string]interface{}{"request": string(b.Req)})
+			return
+		}
+		unpub.mu.Lock()
+		var stamp uint64
+		if len(unpub.ops) == 1 {
+			stamp = unpub.ops[0].TransactionTime
+		}
+		n := len(unpub.ops)
+		unpub.mu.Unlock()
+		if n != 1 {
+			c.Violation(fmt.Sprintf("C05 %d interim copies in the unpublished-operation store after one accepted %s", n, kind), nil)
+			return
+		}
+		desc := *b.Desc
+		desc.MaxDelta = int64(p.MaxOperationTimeDelta)
+		all := append(append([]*ref.Op{}, H...), Place(&desc, stamp, 0, "", 0))
+		st, merr := ref.Resolve(all, ref.ResolveOpts{})
+		rm, rerr := proc.Resolve(d.Suffix)
+		want, got := stKey(st, merr), rmKey(rm, rerr)
+		inWin := ref.InWindow(from, until, int64(p.MaxOperationTimeDelta), stamp)
+		if want != got || !inWin {
+			c.Violation(fmt.Sprintf("C05 interim copy of a %s accepted inside its window [%d,%d]: stamped with time %d (in window by the stated rule: %v)\n   model:   %s\n   library: %s", kind, from, until, stamp, inWin, want, got),
+				map[string]interface{}{"request": string(b.Req), "interim_stamp": stamp, "model": want, "library": got})
+			return
+		}
+		c.Count("interim_copies_resolved_in_window")
+		c.Distinct(fmt.Sprintf("interim|%s|%d", kind, k%3))
+	}
 }
